@@ -91,16 +91,25 @@ Proof.
   eapply copy_loop_dead; eassumption.
 Qed.
 
+Lemma put_byte_frozen b s : frozen s (put_byte b s).
+Proof. unfold put_byte. destruct (cur s); split; reflexivity. Qed.
+
 Lemma read_from_dead c : forall fuel chunks s e s', dead s -> read_from fuel c chunks s = (e, s') -> frozen s s'.
 Proof.
   induction fuel as [|fuel IH]; intros chunks s e s' D H; cbn [read_from] in H.
   - inversion H; subst; split; reflexivity.
   - destruct (cur s) as [m|]; [|inversion H; subst; apply frozen_refl].
     destruct (cap c - blen (m_buf m) =? 0).
-    + destruct (flush_frame c false [] m s) as [e1 s1] eqn:EF.
+    + destruct chunks as [|[|b ch'] rest]; [inversion H; subst; apply frozen_refl| |].
+      { destruct rest as [|r1 rest1]; [inversion H; subst; apply frozen_refl|]. eapply IH; eassumption. }
+      destruct (flush_frame c false [] m s) as [e1 s1] eqn:EF.
       pose proof (flush_frame_dead c false [] m s e1 s1 D EF) as F.
       destruct e1; [inversion H; subst; exact F|].
-      eapply frozen_trans; [exact F|]. eapply IH; [|exact H]. eapply dead_frozen; eassumption.
+      assert (F2 : frozen s (put_byte b s1)) by (eapply frozen_trans; [exact F|apply put_byte_frozen]).
+      destruct ch' as [|b1 ch1]; [destruct rest as [|r1 rest1]|].
+      * inversion H; subst. exact F2.
+      * eapply frozen_trans; [exact F2|]. eapply IH; [|exact H]. eapply dead_frozen; eassumption.
+      * eapply frozen_trans; [exact F2|]. eapply IH; [|exact H]. eapply dead_frozen; eassumption.
     + destruct chunks as [|ch rest]; [inversion H; subst; apply frozen_refl|].
       destruct (dropN _ ch) as [|r0 rem]; [destruct rest as [|r1 rest1]|].
       * inversion H; subst. split; reflexivity.
